@@ -31,27 +31,75 @@ func init() {
 			}
 			var guard *ssa.If
 			var counter ssa.Value
+			var exitBlock *ssa.BasicBlock
+			isLimit := func(v ssa.Value) bool {
+				for _, o := range p.origins(v, OriginOpts{}) {
+					if _, ok := constInt(o); ok {
+						return true
+					}
+				}
+				return false
+			}
 			eachInstr(fn, func(in ssa.Instruction) {
 				ifi, ok := in.(*ssa.If)
 				if !ok || !dominates(ifi, render) {
 					return
 				}
 				b, ok := ifi.Cond.(*ssa.BinOp)
-				if !ok || !(b.Op == token.GEQ || b.Op == token.GTR) {
+				if !ok {
 					return
 				}
-				lim := false
-				for _, o := range p.origins(b.Y, OriginOpts{}) {
-					if _, ok := constInt(o); ok {
-						lim = true
+				// the successor that leads on to the render call, and the one that leaves
+				blk := ifi.Block()
+				stay := -1
+				for k, s := range blk.Succs {
+					if s == render.Block() || s.Dominates(render.Block()) {
+						stay = k
 					}
 				}
-				if !lim {
+				if stay < 0 || blk.Succs[0] == blk.Succs[1] {
 					return
 				}
-				if blockReturnsNonNilError(ifi.Block().Succs[0]) {
+				exit := blk.Succs[1-stay]
+				// normalise to `cnt OP limit` being true on the exit edge
+				op, cnt, lim := b.Op, b.X, b.Y
+				if isLimit(b.X) && !isLimit(b.Y) {
+					cnt, lim = b.Y, b.X
+					switch op {
+					case token.LSS:
+						op = token.GTR
+					case token.LEQ:
+						op = token.GEQ
+					case token.GTR:
+						op = token.LSS
+					case token.GEQ:
+						op = token.LEQ
+					}
+				}
+				if !isLimit(lim) {
+					return
+				}
+				if stay == 0 { // the condition is false on the exit edge: negate
+					switch op {
+					case token.LSS:
+						op = token.GEQ
+					case token.LEQ:
+						op = token.GTR
+					case token.GTR:
+						op = token.LEQ
+					case token.GEQ:
+						op = token.LSS
+					default:
+						return
+					}
+				}
+				if op != token.GEQ && op != token.GTR {
+					return
+				}
+				if blockReturnsNonNilError(exit) {
 					guard = ifi
-					counter = b.X
+					counter = cnt
+					exitBlock = exit
 				}
 			})
 			c.check(guard != nil, "layout: depth guard", p.instrPos(render), "counter >= const → error dominates the render call", "no guard `counter >= constant → return error` dominates the render call: a cyclic layout chain never ends")
@@ -64,7 +112,7 @@ func init() {
 			// the overflow edge must not write to the destination
 			d := p.destTaint()
 			wrote := false
-			for _, in := range guard.Block().Succs[0].Instrs {
+			for _, in := range exitBlock.Instrs {
 				if site, ok := in.(ssa.CallInstruction); ok && p.destArg(site, d) != nil {
 					wrote = true
 				}
@@ -276,7 +324,7 @@ func init() {
 	})
 
 	register(&Rule{
-		ID: "C07.R5", Props: []string{"C07"}, Min: 3,
+		ID: "C07.R5", Props: []string{"C07"}, Min: 2, // one obligation per back edge of the chain loop (two today, one for a for-loop with a post statement) + the data map
 		Doc: "the chain consumes its key and keeps one data map: every path that continues the loop deletes the `layout` key from the accumulated data before the next Fill, and the accumulated data map itself is created once before the loop and only updated inside it (never replaced by a link's own environment, which would let a layout's front-matter shadow the page's)",
 		Run: func(p *Prog, c *Ctx) {
 			fn := p.MustFn("(*vuego.template).layout")
@@ -442,19 +490,32 @@ func init() {
 			c.check(theme != nil && dataDir != nil && dominates(theme, dataDir), "loadConfig: theme.yml before data/", p.pos(lc.Pos()), "theme.yml is loaded first, data/ files override it", "theme.yml is not loaded before the data/ directory: data/*.yml no longer overrides theme.yml")
 			// Load: front-matter assigned on the copy after new()
 			ld := p.MustFn("(*vuego.template).Load")
-			var newCall, assign ssa.Instruction
+			var newCall ssa.Instruction
+			var assigns []ssa.CallInstruction
 			for _, site := range callsIn(ld) {
 				switch calleeName(site.Common()) {
 				case "(*vuego.template).new":
 					newCall = site
-				case "(*vuego.template).Assign":
-					assign = site
+				case "(*vuego.template).Assign", "(*vuego.Stack).Set":
+					assigns = append(assigns, site)
 				}
 			}
-			okLoad := newCall != nil && assign != nil && dominates(newCall, assign)
-			if okLoad {
-				okLoad = false
-				for _, o := range p.origins(assign.(ssa.CallInstruction).Common().Args[0], OriginOpts{}) {
+			okLoad := false
+			for _, assign := range assigns {
+				if newCall == nil || !dominates(newCall, assign) {
+					continue
+				}
+				recv := assign.Common().Args[0]
+				if calleeName(assign.Common()) == "(*vuego.Stack).Set" {
+					// tpl.stack.Set(k, v): the receiver is the stack field of the fresh template
+					f := loadedField(recv)
+					ld, isLoad := recv.(*ssa.UnOp)
+					if f == nil || !fieldIs(f, "stack") || !isLoad {
+						continue
+					}
+					recv = ld.X.(*ssa.FieldAddr).X
+				}
+				for _, o := range p.origins(recv, OriginOpts{}) {
 					if o == newCall.(ssa.Value) {
 						okLoad = true
 					}
